@@ -29,9 +29,13 @@ def build_conn(cd):
     for i, a in enumerate(cd.get("app", ())):
         if i in tick and cd["ver"] == R.TLS13:
             c.ticket13()
+        for d in (cd.get("ku_at") or {}).get(str(i), ()):
+            c.key_update(d, request=bool(i % 2))
         if i in alerts:                     # e.g. a half-close: close_notify of one side while the other still sends
             c.alert(alerts[i][0], alerts[i][1], 0)
         c.app(a[0], a[1], pad13=a[2] if len(a) > 2 else None)
+    for d in (cd.get("ku_at") or {}).get(str(len(cd.get("app", ()))), ()):
+        c.key_update(d)
     if cd.get("alert_end"):
         lvl = 1 if cd["alert_end"] == "warning" else 2
         c.alert("c", lvl, 0)
